@@ -274,45 +274,66 @@ pub fn _j(_: &J) -> J {
 /// placeholder (or whose id is outside the specification) written directly after the End of an
 /// unknown-size master — a reader cannot tell whether it is inside or after that master.
 pub fn ambiguous_history(spec: &crate::spec::SpecTable, ops: &[WOp]) -> bool {
-    // (id, unknown-size) of open masters; Full masters are known-size and self-contained
-    let mut stack: Vec<bool> = Vec::new();
-    let mut just_closed_unknown = false;
-    fn first_is_ambiguous(spec: &crate::spec::SpecTable, id: u64) -> bool {
-        spec.get(id).map(|e| e.has_global()).unwrap_or(true)
+    // Full masters count as one element (known-size, self-contained); their inside is judged like a document
+    fn full_inside_ambiguous(spec: &crate::spec::SpecTable, t: &TagV) -> bool {
+        if let Val::Full(cs) = &t.val {
+            let mut ops: Vec<WOp> = Vec::new();
+            for c in cs {
+                ops.push(WOp::Write(c.clone(), Opt::Default));
+            }
+            return ambiguous_history(spec, &ops);
+        }
+        false
     }
+    // (id, unknown-size) of open masters
+    let mut stack: Vec<(u64, bool)> = Vec::new();
+    // the unknown-size master whose End was the previous call
+    let mut just_closed: Option<u64> = None;
+    // something written now: does it land in the ambiguous zone?
+    let lands_badly = |stack: &Vec<(u64, bool)>, just_closed: Option<u64>, id: u64| -> bool {
+        if let Some(n) = just_closed {
+            // only something that ends N can follow N; a master with a placeholder path stays last
+            if spec.get(n).map_or(true, |d| d.has_global()) || !crate::refdec::ends_master(spec, n, id) {
+                return true;
+            }
+        }
+        // nothing that by itself ends a master of the trailing unknown-size run it is written into
+        let rs = stack.iter().rposition(|x| !x.1).map_or(0, |i| i + 1);
+        (rs..stack.len()).any(|i| crate::refdec::ends_master(spec, stack[i].0, id))
+    };
     for op in ops {
         match op {
             WOp::Write(t, o) => match &t.val {
                 Val::Start => {
-                    if just_closed_unknown && first_is_ambiguous(spec, t.id) {
+                    if lands_badly(&stack, just_closed, t.id) {
                         return true;
                     }
-                    just_closed_unknown = false;
-                    stack.push(matches!(o, Opt::Unknown));
+                    just_closed = None;
+                    stack.push((t.id, matches!(o, Opt::Unknown)));
                 }
                 Val::End => {
-                    let unk = stack.pop().unwrap_or(false);
-                    just_closed_unknown = unk;
+                    let (id, unk) = stack.pop().unwrap_or((t.id, false));
+                    just_closed = if unk { Some(id) } else { None };
                 }
                 _ => {
-                    if just_closed_unknown && first_is_ambiguous(spec, t.id) {
+                    if lands_badly(&stack, just_closed, t.id) || full_inside_ambiguous(spec, t) {
                         return true;
                     }
-                    just_closed_unknown = false;
+                    just_closed = None;
                 }
             },
             WOp::WriteUnknownDeprecated(t) => {
-                if just_closed_unknown && first_is_ambiguous(spec, t.id) {
+                if lands_badly(&stack, just_closed, t.id) {
                     return true;
                 }
-                just_closed_unknown = false;
-                stack.push(true);
+                just_closed = None;
+                stack.push((t.id, true));
             }
             WOp::WriteRaw(id, _) => {
-                if just_closed_unknown && first_is_ambiguous(spec, *id) {
+                if lands_badly(&stack, just_closed, *id) {
                     return true;
                 }
-                just_closed_unknown = false;
+                just_closed = None;
             }
             WOp::Flush => {}
         }
